@@ -183,6 +183,22 @@ PROPERTIES = {
         explanation="symbolic execution of the real parser over the complete structure space; exact-algebra comparison of the real projector code "
                     "with the transforms of the published forms",
     ),
+    "C14": dict(
+        engines="Z",
+        claim="Each minimiser (sd, lm, pclm, cg, pccg, auto) with the real check_convergence, for ANY iteration cap Nit >= 1 (loop invariant): "
+              "never more energy evaluations than Nit, one history entry per evaluation, the convergence flag is only set with >= 2 energies and "
+              "|dE| < etol, and on the converged exit nothing is assigned to W after the last evaluation (stored state belongs to the returned "
+              "coefficients); Energy.Etot is the sum of its fields; run() returns Etot after all contributions are stored and reports a flag set "
+              "in this run. 'All schemes reach the same minimum' / 'local minimum' are optimisation outcomes no contract decides (not claimed).",
+        note="cost / grad / preconditioner / dot products are uninterpreted (ghost evaluation counter on the cost stub); one k-point and one spin "
+             "channel (inner loops unrolled); gradient-tolerance test only structurally; run()-level clauses are AST data-flow checks",
+        modules=["contracts.c14"],
+        level="proof",
+        trusted_base=["ast (parser)", "in-house AST->z3 symbolic executor (engine Z)", "z3 5.1"],
+        assumptions=["cost/grad are the callee contracts (scf_step changes the stored state and leaves W; get_grad is pure)",
+                     "inner loops over k-points and spin channels unrolled for Nk = Nspin = 1"],
+        explanation="symbolic execution of the real minimiser bodies with a ghost evaluation counter and loop invariants over the iteration",
+    ),
 }
 
 
